@@ -104,3 +104,10 @@ Proof. exact base_device_cost. Qed.
 
 Example C05_example_gap_zero : forall y, (0 <= nth 0 y 0 <= 1 /\ length y = 1%nat) -> dot [0] [2] <= dot y [2] + 0.
 Proof. exact fw_example. Qed.
+
+(* ---- the hypothesis `has_gradient` of the certificate is what C01 provides: exact partials near x + continuity of the
+   reported marginal cost at x give the derivative towards every other point (Proofs/Total.v, any length) ---- *)
+From DK.Proofs Require Import Total TotalConvex.
+Theorem C05_exact_gradient_gives_certificate_hypothesis : forall (F : list R -> R) (G : list R -> list R) (x : list R) (r : R),
+  0 < r -> (forall y, vnear x y r -> grad_at F (G y) y) -> gcont G x -> has_gradient F x (G x).
+Proof. exact exact_gradient_gives_certificate_hypothesis. Qed.
